@@ -323,3 +323,145 @@ PROPS["C15"] = {
     "technique": "Lean 4 proof over an abstract file system (op-trace model of the CLI shell, invariant over all crash states) + "
                  "differential correspondence on the real binary (strace syscall traces, inode/mtime, exhaustive SIGKILL injection)",
 }
+
+_IR_RULE = ("each case is a generated binding program (expression or block with let/const, if/else, switch with default at "
+            "any position/fall-through/break, early return) or signal callback (expression, block, function with typed "
+            "parameters) over the verification classes VBase/VDerived/VOther (harness/metatypes/verif.json), depth ≤4 (quick) / "
+            "≤6 (thorough), every operator of docs/language.md, casts, Math.max/min, method calls, subscripts, implicit and "
+            "explicit this, literal spellings in all radixes, with 0/2/6 % type-breaking noise; compiled by the REAL pipeline "
+            "(uigen::build: tir::build/build_callback with ObjectContext, analyze_code_property_dependency, evaluate_code) and "
+            "observed through the read-only hook")
+
+PROPS["C06"] = {
+    "gen": ["gen_verif_env.py"],
+    "lean": ["QV.Props.C06"],
+    "streams": ["ir"],
+    "rule": _IR_RULE + "; (pred cfgcheck) the REAL IR of every accepted program is run through the Lean CFG certificate "
+            "checker whose soundness is proved; (model) the real IR equals the Lean model's IR exactly (blocks, statements, "
+            "operands, local types, terminators, static deps, observers, constant evaluation, diagnostics)",
+    "trusted_base": ["harness/src/irser.rs serialises the real IR (public qmluic::tir types) — a wrong serialiser would hide a defect",
+                     "QV.Gen.VerifEnv is dumped from the real type map on every run",
+                     "the untrusted certificate producers computeReach/computeIns only matter for completeness (a bad certificate "
+                     "makes the check fail, never pass wrongly: checkCfg_sound)"],
+    "assumptions": ["the C++ emitted from the IR follows the IR's control flow (labels/gotos): C16/C01 tie"],
+    "level_text": "proof of the checker, per-output decision for the builder: checkCfg_sound — if the certificate check accepts a "
+                  "function body then for EVERY path from the entry every jump target exists, control never reaches a block "
+                  "without terminator or the unreachable marker, and every local read is preceded by an assignment on that path. "
+                  "The check is run on the real IR of every generated accepted program (translation validation); the statement "
+                  "'every output of the builder passes the check, for all programs' (build_passes_check_full_statement) is not "
+                  "proved.",
+    "level_note": "trusted: Lean kernel; IR serialiser; partial: the ∀-programs theorem about the builder is missing — programs not "
+                  "generated are covered only through the exact model/implementation IR correspondence; F1 (non-empty tail block "
+                  "marked unreachable) and F17 (empty switch panic) are repaired in /repo",
+    "technique": "Lean 4 proof of a CFG certificate checker (sound for all paths) applied to every real IR + exact-IR differential correspondence",
+}
+
+# PROPS blocks for C04, C14, C20 — to be pasted into /verif/tools/qvconfig.py
+
+PROPS["C04"] = {
+    "gen": ["gen_pseudo_props.py"],
+    "lean": ["QV.Props.C04"],
+    "streams": ["c04"],
+    "rule": "each case derives from a generated document (object trees over the real Qt 5 metatypes: widgets, the four layouts, "
+            "spacers, actions, static separators, menus, tab pages, item views with header.* maps, combo models, explicit `actions` "
+            "lists; per object 0-7 constant/dynamic scalar bindings, grouped font/size/rect/size-policy/margins/icon members incl. "
+            "groups mixing constant and dynamic members, attached QLayout.*/QTabWidget.* bindings, signal handlers) translated by the "
+            "real pipeline in generate mode. c04-ledger (oracle): the generator's independent ledger must balance against the real "
+            ".ui (own strict XML reader) and the real header (token scan) in both directions. c04-fault (oracle): the same document "
+            "with ONE fault out of a catalogue of 20 kinds planted at a random applicable object: an error diagnostic with the "
+            "expected message lies inside the byte range of the planted binding, the document is not accepted, and for every 12th "
+            "case the real CLI is run in a temp dir on [Good.qml, Faulty.qml, Other.qml] with a pre-existing faulty.ui: exit status 1, "
+            "faulty.ui unchanged (content + mtime), uisupport_faulty.h not created, outputs of the two valid sources written, exact "
+            "directory listing. passes (model): per-binding fate (embedded / generated / repeated / connected), the hook's "
+            "evaluated-constant flags after the passes, acceptance and the multiset of (subject binding, message class) of the real "
+            "run vs the Lean model, for the clean and the faulted document; distinct = distinct requests",
+    "trusted_base": [
+        "hand-written model QV.Model.Passes of uigen/{mod,objcode,object,layout,property,gadget,expr,binding}.rs at the level of binding "
+        "fates, tied by the c04/c14/c20 correspondence streams (exact comparison per binding)",
+        "tools/gen_pseudo_props.py regenerates QV.Gen.PseudoProps (exclude lists and special look-ups) from the source on every run; "
+        "pseudo_tables_agree / excluded_names_are_looked_up re-prove the table lemmas by kernel evaluation",
+        "harness/src/ledger.rs: the classification of generated bindings into the model's abstract attributes (constant / dynamic, "
+        "readable / writable, group kind) comes from the generator's own tables; harness/src/xml.rs; header token scan",
+        "grouped bindings are modelled one level deep; nested groups (palette.active.window) are outside the modelled fragment",
+    ],
+    "assumptions": [
+        "layout pseudo-properties flow/columns/rows and consumed QLayout.* attached properties count as 'embedded' (they "
+        "parameterise the cell computation; DESIGN.md §4)",
+        "clause 'never in neither' is refuted for `QAction { separator: false }` as the action's only binding (known finding: the "
+        "unedited suite pins this output in test_action_separator_false); the theorem carries the hypothesis NoSilentDrop",
+    ],
+    "level_text": "proof (partial: one clause refuted): diagnosed_not_silently_dropped — in generate mode every scalar binding that entered "
+                  "a code map is embedded in the form, or has update code, or has an error diagnostic attributed to it or to its group "
+                  "(case analysis over the consumers that skip silently — SerializableValue::build → None, the exclude lists, the "
+                  "never-initialised evaluation cell — against the consumers that pick up: UiSupportCode::build, the left-over attached "
+                  "check, the special paths); ownership_total_partial — accepted ⇒ exactly one place, the only overlap being constant "
+                  "members of a group with a dynamic member, repeated with the embedded value; cache_partitions; error_writes_nothing / "
+                  "generateUi_writes_only_accepted / generateUi_exit_status over the model of generate_ui_file. ownership_full_statement "
+                  "is refuted by a kernel-checked witness (`separator: false`), replayed on the real code from corpus/C04.",
+    "level_note": "trusted: Lean kernel; the hand-written pass model (expressions abstract: builds / constant / converts / readable / "
+                  "writable / return type fits), tied by exact per-binding comparison with the real pipeline incl. the read-only hook's "
+                  "evaluated-constant flags; the generator's ledger and its classification tables; diagnostic ranges are checked by the "
+                  "oracle on real output only (diag_within_binding has no theorem); brush/palette/nested groups not generated",
+    "technique": "Lean 4 proof (partition of the bindings by the lazily cached evaluation flag, pointwise case analysis over consumers) + table "
+                 "regeneration + differential correspondence + independent ledger oracle on real .ui/header + real CLI runs",
+}
+
+PROPS["C14"] = {
+    "gen": ["gen_pseudo_props.py"],
+    "lean": ["QV.Props.C14"],
+    "streams": ["c14"],
+    "rule": "each case derives from a generated document of the C04 generator (a third stripped to constant-only so that reject mode "
+            "accepts), clean and with one planted fault (20 kinds). c14-modes (oracle): the document is translated in generate, reject "
+            "and omit in-process; .ui bytes equal whenever produced and produced in the same modes; reject accepts ⇔ generate accepts "
+            "with a header that has no update/eval/on functions and no connects (token scan of the real header); every omit-mode error "
+            "(range, message) is in the generate-mode multiset; header only in generate mode. passes (model): for each of the three "
+            "modes the real result (fates, flags, diagnostics by subject and class, acceptance, header presence) vs the Lean model",
+    "trusted_base": ["hand-written model QV.Model.Passes (shared with C04), tied by the c04/c14/c20 streams",
+                     "harness/src/ledger.rs header token scan and diagnostic classification by message text"],
+    "assumptions": ["'header containing no bindings and no callbacks' = no CxxBinding and no CxxCallback object (model: bindings = [] ∧ "
+                    "connected = []); on real headers: no update*/eval*/on* function and no QObject::connect"],
+    "level_text": "proof (full, on the model): form_mode_independent (form, placed objects, built and panic flags are the same function of "
+                  "the document in all three modes — the form is fixed before the mode switch and the evaluation cell is idempotent: "
+                  "cell_state_is_route, evaluate_idem); reject_iff_empty_generate (both directions, via rejectEntry = [] ⇔ evalConst and "
+                  "¬evalConst ⇒ a binding or a diagnostic in the C++ pass); omit_errors_subset_generate (sublist, also for reject) with "
+                  "generate_only_errors_are_cxx / reject_only_errors_are_rej; header_only_generate",
+    "level_note": "trusted: Lean kernel; the hand-written pass model tied by exact comparison in all three modes on generated clean and "
+                  "faulted documents; the real-header emptiness test is a token scan",
+    "technique": "Lean 4 proof (the mode switch only reads the state left by the shared passes) + 3-mode differential correspondence + byte "
+                 "comparison of real .ui across modes",
+}
+
+PROPS["C20"] = {
+    "gen": ["gen_pseudo_props.py"],
+    "lean": ["QV.Props.C20"],
+    "streams": ["c20"],
+    "rule": "each case is a clean document of the C04 generator with one fault (20 kinds × sampled positions; 4 per document in the quick "
+            "tier). c20-local (oracle, on a variant where a third of the unreferenced objects are anonymous): omit mode yields a form; "
+            "the planted error is reported with its range inside the planted binding (for the kinds the preview passes can see); the "
+            "XML tree of the faulted run equals the tree of the fault-free run (document without the faulty binding / with the "
+            "unknown-typed object removed) outside the faulted object's own property/attribute/addaction/item-model children, "
+            "generated names compared up to renumbering; the faulted object has no property the fault-free one lacks (except the "
+            "empty group of a planted member). passes (model): the omit-mode result of the faulted document vs the Lean model",
+    "trusted_base": ["hand-written model QV.Model.Passes (shared with C04/C14); QV.Model.Layout (C12) for the cell cursor witness",
+                     "harness/src/xml.rs and the canonicalisation of generated names (any name that is not an id of the document ↦ '_')"],
+    "assumptions": [
+        "'every error is still reported' is read as: recovery loses no diagnostic of the passes that run in preview mode "
+        "(errors_not_lost); errors only the C++ pass can see (return type of a dynamic binding, missing READ/WRITE of a dynamic "
+        "target) are by construction absent in omit mode (C14: omit errors ⊆ generate errors) — replay: `text: srcSpin.value`",
+        "two clauses of 'identical outside the faulted object' are refuted: (1) an entering faulty binding next to "
+        "`separator: true` turns the static separator into an action (fault_local_full_refuted); (2) a duplicated attached binding "
+        "empties the child's whole attached map, so following siblings of a grid/form layout move "
+        "(duplicate_attached_shifts_sibling_witness); both replayed from corpus/C20",
+    ],
+    "level_text": "proof (partial: two clauses refuted): omit_yields_form; errors_not_lost / unresolved_objects_reported; "
+                  "fault_local_rejected_binding (+ callback, + unknown attached type): a binding rejected while the code maps are built "
+                  "changes nothing anywhere and is reported; fault_local_failing_constant_partial (ill-typed constant on a non-action "
+                  "object: form unchanged); fault_local_duplicate_binding / fault_local_duplicate_attached (the form equals that of the "
+                  "document with exactly that object's own binding map erased); fault_local_unknown_type (form = form of the document "
+                  "with exactly the unresolved subtrees removed). fault_local_full_statement refuted by a kernel-checked witness.",
+    "level_note": "trusted: Lean kernel; the pass model tied by exact omit-mode comparison on faulted documents; layout cells and generated "
+                  "names are not part of the pass model (cells: C12 model used for the witness; names: C10) — their locality is checked by "
+                  "the XML-tree oracle on real output; preview watcher/viewer (src/main.rs preview_file) not modelled",
+    "technique": "Lean 4 proof (non-interference: per-object congruence of the constant pass lifted over the tree, pruning lemma for "
+                 "unresolved subtrees) + differential correspondence + faulted-vs-fault-free XML tree comparison on real output",
+}
